@@ -116,13 +116,14 @@ theorem targets_order (ts : List Path) :
   exact absurd h3 (by simp)
 
 /-- **files_before_dir** — the effect of `targets_order`: when `clean_targets` (no dry run) reaches a target
-    directory `d` whose whole content are target files of the same task, `d` is empty and is removed -/
+    directory `d` whose whole content are target files of the same task (no symbolic links around), `d` is empty
+    and is removed -/
 theorem files_before_dir (t : Name) (targets : List Path) (w : World) (evs : List Ev) (d : Path)
-    (hd : d ∈ targets) (hnf : d ∉ w.files)
+    (hd : d ∈ targets) (hnf : d ∉ w.files) (hnl : w.links = [])
     (hfiles : ∀ q, q ∈ w.files → below d q = true → q ∈ targets)
     (hdirs : ∀ q, q ∈ w.dirs → below d q = false) :
     d ∉ (cleanTargets false t targets (w, evs)).1.dirs :=
-  cleanTargets_rmdir t targets (w, evs) d hd hnf hfiles hdirs
+  cleanTargets_rmdir t targets (w, evs) d hd hnf hnl hfiles hdirs
 
 /-- **dryrun_frame** — with `--dry-run` the command changes neither files, nor directories, nor the DB
     (whatever else is on the command line, `--forget` included) -/
@@ -159,11 +160,11 @@ theorem dryrun_runs_only_aware_actions (tbl : Table) (r : Req) (w : World) (res 
     (told `True`); the same list on a real clean runs all three and removes `x` -/
 example :
     (match run [⟨['t'], [], [], none, [], .actions [⟨.aware, none⟩, ⟨.cmd, some (.rm ['x'])⟩, ⟨.plain, none⟩]⟩]
-        ⟨[], none, false, false, true, false⟩ ⟨[['x']], [], [0]⟩ with
+        ⟨[], none, false, false, true, false⟩ ⟨[['x']], [], [0], []⟩ with
       | .ok res => some (res.world.files, res.events) | .error _ => none) =
     some ([['x']], [Ev.executing 0 0, Ev.ran 0 0 true, Ev.executing 0 1, Ev.executing 0 2]) ∧
     (match run [⟨['t'], [], [], none, [], .actions [⟨.aware, none⟩, ⟨.cmd, some (.rm ['x'])⟩, ⟨.plain, none⟩]⟩]
-        ⟨[], none, false, false, false, false⟩ ⟨[['x']], [], [0]⟩ with
+        ⟨[], none, false, false, false, false⟩ ⟨[['x']], [], [0], []⟩ with
       | .ok res => some (res.world.files, res.events) | .error _ => none) =
     some ([], [Ev.executing 0 0, Ev.ran 0 0 false, Ev.executing 0 1, Ev.cmd 0 1, Ev.executing 0 2, Ev.ran 0 2 false]) := by
   decide
@@ -254,7 +255,7 @@ example :
     set) stays; the file inside the target directory goes before the directory -/
 example :
     (match run [⟨['t'], [], [], none, [['d'], ['d', '/', 'f']], .targets⟩] ⟨[], none, false, false, false, true⟩
-        ⟨[['d', '/', 'f']], [['d']], [0, 4]⟩ with
+        ⟨[['d', '/', 'f']], [['d']], [0, 4], []⟩ with
       | .ok res => some (res.world.files, res.world.dirs, res.world.db, res.events)
       | .error _ => none) =
     some ([], [], [4], [Ev.rmFile 0 ['d', '/', 'f'], Ev.rmDir 0 ['d']]) := by decide
